@@ -668,9 +668,18 @@ class _ConnectionRecord(ConnectionPoolEntry):
         self.dbapi_connection = None
 
         self.__pool = pool
-        if connect:
-            self.__connect()
         self.finalize_callback = deque()
+        if connect:
+            try:
+                self.__connect()
+            except BaseException:
+                with util.safe_reraise():
+                    # a connect / first_connect event handler failed after
+                    # the DBAPI connection was established.  this record is
+                    # being discarded, so close the connection rather than
+                    # leaving it open and unreferenced
+                    if self.dbapi_connection is not None:
+                        self.__close(terminate=True)
 
     dbapi_connection: Optional[DBAPIConnection]
 
